@@ -72,12 +72,13 @@ func HarnessC13LogRecord() {
 // C13.group (logs)
 func HarnessC13LogGroup() {
 	resources := []*resource.Resource{resource.NewSchemaless(attribute.String("r", "1")), resource.NewSchemaless(attribute.String("r", "2"))}
-	scopes := []*instrumentation.Scope{{Name: "s1"}, {Name: "s1", Attributes: attribute.NewSet(attribute.String("t", "x"))}, {Name: "s2", Version: "v", SchemaURL: "u"}}
+	scopes := []*instrumentation.Scope{{Name: "s1"}, {Name: "s1", Attributes: attribute.NewSet(attribute.String("t", "x"))}, {Name: "s2", Version: "v", SchemaURL: "u"},
+		{Version: "v9", SchemaURL: "u9"}} // the last one: no name, but a version and a schema URL
 	n := 1 + vndChoice(3)
 	var recs []log.Record
 	var ri, si []int
 	for i := 0; i < n; i++ {
-		r, s := vndChoice(2), vndChoice(3)
+		r, s := vndChoice(2), vndChoice(4)
 		ri, si = append(ri, r), append(si, s)
 		recs = append(recs, logtest.RecordFactory{Body: api.Int64Value(int64(i)), Resource: resources[r], InstrumentationScope: scopes[s]}.NewRecord())
 	}
